@@ -12,7 +12,7 @@ use write_fonts::{
 
 use crate::{
     error::Error,
-    metrics_and_limits::MetricsBuilder,
+    metrics_and_limits::{MetricsBuilder, checked_advance},
     orchestration::{AnyWorkId, BeWork, Context, WorkId},
 };
 
@@ -74,12 +74,16 @@ impl Work<Context, AnyWorkId, Error> for VerticalMetricsWork {
         let builder =
             glyph_order
                 .iter()
-                .fold(MetricsBuilder::default(), |mut builder, (_gid, gn)| {
+                .try_fold(MetricsBuilder::default(), |mut builder, (_gid, gn)| {
                     let glyph = context.ir.get_glyph(gn.clone());
                     let instance = glyph.default_instance();
 
                     // https://github.com/googlefonts/ufo2ft/blob/2f11b0ff/Lib/ufo2ft/outlineCompiler.py#L882-L890
-                    let advance = instance.height(&default_metrics);
+                    let advance = checked_advance(
+                        gn,
+                        "advance height",
+                        instance.height_unrounded(&default_metrics),
+                    )?;
                     let vertical_origin = instance.vertical_origin(&default_metrics);
 
                     let glyph = context.glyphs.get(&WorkId::GlyfFragment(gn.clone()).into());
@@ -92,8 +96,8 @@ impl Work<Context, AnyWorkId, Error> for VerticalMetricsWork {
                         .map(|bbox| bbox.y_max as i32 - bbox.y_min as i32);
 
                     builder.update(advance, side_bearing, bounds_advance);
-                    builder
-                });
+                    Ok::<_, Error>(builder)
+                })?;
 
         let metrics = builder.build();
 
